@@ -45,12 +45,13 @@ def programs():
     return src
 
 
-def run_suite(wd, variant='exc', max_evals=300, rng=None, jobs=12):
+def run_suite(wd, variant='exc', max_evals=300, rng=None, jobs=12, only=None):
     """Returns (executions, skipped): one Execution per program that could be built and produced a log."""
     from concurrent.futures import ThreadPoolExecutor
     lib, shim = build_shim(variant)
     rng = rng or random.Random(1)
-    seeds = {f: rng.randint(0, 10**9) for f in programs()}
+    progs = [f for f in programs() if only is None or os.path.relpath(f, mk.REPO) in only]
+    seeds = {f: rng.randint(0, 10**9) for f in progs}
 
     def one(f):
         b = os.path.basename(f)
@@ -63,7 +64,7 @@ def run_suite(wd, variant='exc', max_evals=300, rng=None, jobs=12):
         if r.returncode:
             return (f, None, 'link: ' + r.stderr[-300:])
         try:
-            rr = subprocess.run([exe], cwd=wd, env=dict(os.environ, MASA_TRACE_LOG=log), stdout=subprocess.DEVNULL, stderr=subprocess.DEVNULL, timeout=300)
+            rr = subprocess.run([exe], cwd=wd, env=dict(os.environ, MASA_TRACE_LOG=log), stdin=subprocess.DEVNULL, stdout=subprocess.DEVNULL, stderr=subprocess.DEVNULL, timeout=20)
             rc = rr.returncode
         except subprocess.TimeoutExpired:
             rc = -9
@@ -79,15 +80,32 @@ def run_suite(wd, variant='exc', max_evals=300, rng=None, jobs=12):
         ex.events, ex.rc, ex.err, ex.log = kept, rc, '', log
         ex.total_events, ex.total_evals = len(ev), len(idx)
         ex.oracle = True
+        ex.recorded = True                  # run_executions must not run it again
+        ex.ok_rc = (0, 1, 77)               # a test may fail or skip; what is judged is the trace
+        ex.suite_src = os.path.relpath(f, mk.REPO)
+        ex.sols = set(''.join(chr(c) for c in e.get('sc', [])).lower().replace('-', '').replace(' ', '') for e in ev if e.get('op') == 'init')
         return (f, ex, None)
     execs, skipped = [], []
     with ThreadPoolExecutor(max_workers=jobs) as tp:
-        for f, ex, why in tp.map(one, programs()):
+        for f, ex, why in tp.map(one, progs):
             if ex is None:
                 skipped.append((os.path.relpath(f, mk.REPO), why))
             else:
                 execs.append(ex)
     return execs, skipped
+
+
+_CACHE = {}
+
+
+def suite_executions(sols=None, max_evals=200, seed_=1):
+    """The traced suite, once per process; sols: keep the programs that initialise one of these solutions."""
+    if 'x' not in _CACHE:
+        wd = workdir('suite')
+        _CACHE['x'] = run_suite(wd, max_evals=max_evals, rng=random.Random(seed_))
+        shutil.rmtree(wd, ignore_errors=True)
+    ex, sk = _CACHE['x']
+    return [e for e in ex if sols is None or (e.sols & set(sols))], sk
 
 
 if __name__ == '__main__':
